@@ -153,6 +153,95 @@ def harness_ws(it, px, params):
     return rec
 
 
+LAYOUT_PROGRAMS = [
+    '1 in [ 1 , 2 ]', 'a not in [ 1 ]', "'x' beginWith 'y'", "'xy' endWith 'y'", 'AND [ true , b ]', 'OR [ a ]', 'not true', '! true',
+    '- 2 ++', '3 * - 2 -- + 1', '[ 1 , - 2 ++ ]', 'x = - 4 ++', 'f ( 1 , - 2 )', 'a ? - 1 : + 2', '1 - - 1', 'a += 1 ; a',
+    '{ 1 : - 2 , "k" : [ ] }', 'true && ! false || b', '1 < 2 == true', 'f ( ) ++', 'a ; b ; c', '1.5 * 2 % 3', 'a = b = 3', 'x -= - 1',
+]
+
+
+def layout_gaps(toks):
+    """-> for every gap between adjacent tokens: may the whitespace be dropped without changing the token sequence
+    (decided by the reference tokenizer of C10 on the glued text)"""
+    from harness import c10
+    want = None
+    out = []
+    base = c10.concrete_ref(' '.join(toks).encode(), None)
+    nb = len(base) if base != 'err' else None
+    for i in range(len(toks) - 1):
+        glued = ' '.join(toks[:i + 1]) + ' '.join([''] + toks[i + 1:])[1:] if False else (' '.join(toks[:i + 1]) + ' '.join(toks[i + 1:]))
+        r = c10.concrete_ref(glued.encode(), None)
+        ok = r != 'err' and nb is not None and len(r) == nb and [k for k, _, _ in r] == [k for k, _, _ in base]
+        if ok:
+            # same kinds and count: also the same texts
+            tx = [glued.encode()[a:b] for _, a, b in r]
+            tb = [' '.join(toks).encode()[a:b] for _, a, b in base]
+            ok = tx == tb
+        out.append(ok)
+    return out
+
+
+def harness_layout(it, px, params):
+    """family C: template programs re-laid-out — every gap between tokens holds one or two symbolic whitespace bytes
+    (space, tab, CR, LF), or nothing where the tokens stay separate without it; the AST must equal the one of the
+    single-space layout"""
+    progs = params['programs']
+    k = pick_config(px, 'prog', len(progs))
+    toks = progs[k].split()
+    gaps = layout_gaps(toks)
+    removable = [i for i, g in enumerate(gaps) if g]
+    # variants, one gap at a time (the others hold one space): one symbolic whitespace byte | two symbolic bytes | dropped
+    # (where the tokens stay separate without it); plus all droppable gaps dropped at once
+    variants = []
+    for i in range(len(toks) - 1):
+        variants += [('ws1', (i,)), ('ws2', (i,))]
+        if gaps[i]:
+            variants.append(('drop-one', (i,)))
+    if len(removable) > 1:
+        variants.append(('drop-all', tuple(removable)))
+    vi = pick_config(px, 'variant', len(variants))
+    vname, where = variants[vi]
+    px.notes.append('%s/%s%s' % (progs[k], vname, list(where)))
+    dropped = where if vname.startswith('drop') else ()
+    text = []
+    for i, t in enumerate(toks):
+        text += list(t.encode())
+        if i < len(toks) - 1 and i not in dropped:
+            if vname in ('ws1', 'ws2') and i in where:
+                for j in range(2 if vname == 'ws2' else 1):
+                    w = px.bv('w%d_%d' % (i, j), 8)
+                    px.add(z3.Or([w == z3.BitVecVal(c, 8) for c in WS]))
+                    text.append(w)
+            else:
+                text.append(0x20)
+    px.get_model()
+    rec = {'family': 'layout', 'program': progs[k], 'variant': vname}
+    b = api.parse(it, ' '.join(toks))
+    if b.kind != 'ok':
+        raise ModelError('layout program does not parse: %s' % progs[k])
+    o2 = api.parse(it, Str(tuple(text)))
+    px.cover('layout-checked')
+    if dropped:
+        px.cover('layout-dropped-gap')
+    bad = None
+    model = None
+    if o2.kind != 'ok':
+        bad = 'relayout-%s' % o2.kind
+        model = px.get_model()
+    else:
+        okv, mod = px.check(ast_eq(b.value, o2.value))
+        if not okv:
+            bad = 'ast-changed'
+            model = mod
+    rec['outcome'] = bad or 'same'
+    if bad:
+        wit2 = px.eval_bytes(model, text)
+        px.finding({'key': 'C11|layout|%s|%s|%s' % (bad, progs[k], vname),
+                    'desc': 'the layout %r of `%s` changes the parse (%s)' % (wit2.decode('utf-8', 'replace'), progs[k], bad),
+                    'a': ' '.join(toks).encode().hex(), 'b': wit2.hex(), 'kind': 'ws'})
+    return rec
+
+
 def wrap_variants(toks, node_ranges):
     out = []
     for (a, b) in sorted(node_ranges):
@@ -267,6 +356,12 @@ def run(ctx):
     tpls += [('extra', x.split()) for x in ('f ( a , b ) + [ c , d ] * { e : g }', 'a = b ; c = d + 1', '- a ++ * ! b', 'a ? b : c', 'x not in [ 1 , 2 ]', '1.5 + "s" == true')]
     pp = {'templates': tpls, 'seed': ctx.seed, 'timeout_ms': 10000, 'step_limit': 2000000}
     recs_p, summ_p = ex.explore(eng, harness_paren, pp, prepare=prepare)
+    recs_l, summ_l = ex.explore(eng, harness_layout, {'programs': LAYOUT_PROGRAMS, 'seed': ctx.seed, 'timeout_ms': 10000, 'step_limit': 2000000}, prepare=prepare)
+    recs_p = recs_p + recs_l
+    for k_ in ('paths', 'decisions', 'sat', 'unsat', 'unknown', 'solver_s', 'steps'):
+        summ_p[k_] += summ_l[k_]
+    summ_p['bodies_used'] = sorted(set(summ_p['bodies_used']) | set(summ_l['bodies_used']))
+    summ_p['models_used'] = sorted(set(summ_p['models_used']) | set(summ_l['models_used']))
     inconclusive = []
     by_status = {}
     for r in recs_w + recs_p:
@@ -277,7 +372,7 @@ def run(ctx):
     covers = set()
     for r in recs_w + recs_p:
         covers.update(r.get('covers', []))
-    for need in ('accepted-utf8', 'accepted-alpha', 'relayout-checked'):
+    for need in ('accepted-utf8', 'accepted-alpha', 'relayout-checked', 'layout-checked', 'layout-dropped-gap'):
         if need not in covers:
             inconclusive.append('vacuity: cover %s not reached' % need)
     groups = {}
@@ -317,14 +412,15 @@ def run(ctx):
     nvar = sum(r.get('variants', 0) for r in recs_w)
     nwrap = sum(r.get('wrapped', 0) for r in recs_p)
     samples = [{'input': bytes.fromhex(r['witness']).decode('utf-8', 'replace'), 'relayouts_checked': r.get('variants')} for r in okw[:8]]
-    samples += [{'template': r['text'], 'table': r.get('table'), 'parenthesisations_checked': r.get('wrapped')} for r in recs_p if r['status'] == 'done'][:8]
+    samples += [{'template': r['text'], 'table': r.get('table'), 'parenthesisations_checked': r.get('wrapped')} for r in recs_p if r['status'] == 'done' and 'text' in r][:8]
     summ = {k: summ_w[k] + summ_p[k] for k in ('paths', 'decisions', 'sat', 'unsat', 'unknown', 'solver_s', 'steps')}
     ev = {
         'coverage': {
             'states': max(1, summ['paths']), 'transitions': max(1, summ['decisions']),
             'traces_validated_against_impl': validated, 'samples': samples, 'exhaustive': not inconclusive,
             'bound': {'utf8_input_bytes_max': N, 'structural_alphabet_slots_max': T, 'whitespace_set': ['space', 'tab', 'CR', 'LF'],
-                      'relayouts_checked': nvar, 'paren_templates': len(tpls), 'parenthesisations_checked': nwrap, 'paren_multiplicity': [1, 2]},
+                      'relayouts_checked': nvar, 'layout_programs': LAYOUT_PROGRAMS, 'layout_variants': 'one gap at a time: one / two symbolic whitespace bytes, or dropped where the tokens stay separate; all droppable gaps dropped',
+                      'paren_templates': len(tpls), 'parenthesisations_checked': nwrap, 'paren_multiplicity': [1, 2]},
             'path_status': by_status,
             'solver': {'engine': 'z3 ' + z3.get_version_string(), 'queries_sat': summ['sat'], 'queries_unsat': summ['unsat'],
                        'queries_unknown': summ['unknown'], 'solver_s': round(summ['solver_s'], 2)},
